@@ -1,4 +1,6 @@
 """C15 Timestamp/Duration <-> datetime/timedelta conversion is exact and normalised."""
+import os
+import time
 import dataclasses
 from datetime import datetime, timedelta, timezone
 
@@ -68,6 +70,38 @@ def time_event(args):
             utc = EPOCH + timedelta(microseconds=us)
             if off is None:
                 val = utc                                # UTC-aware (betterproto's own default datetimes are aware)
+            elif off == 7777:
+                # a naive datetime (what utcnow() / offset-less parsing give) in a process whose local zone is not UTC.  Refusing
+                # to encode it is fine (nothing is claimed then); if it is encoded, it denotes what the reference takes it for
+                val = utc.replace(tzinfo=None)
+                old_tz = os.environ.get("TZ")
+                os.environ["TZ"] = "IST-5:30"
+                time.tzset()
+                try:
+                    try:
+                        bytes(TsMsg(t=val))
+                    except Exception:
+                        return None
+                    r = timestamp_pb2.Timestamp()
+                    r.FromDatetime(val)
+                    ev["ref_s"], ev["ref_n"], ev["ref_json"] = av.rawint(r.seconds), av.rawint(r.nanos), av.cps(r.ToJsonString())
+                    m = TsMsg(t=val)
+                    b = bytes(m)
+                    ev["b"] = list(b)
+                    back = TsMsg().parse(b).t
+                    ev["back_us"] = av.rawint(av.dt_us(back))
+                    ev["same_instant"] = (back if back.tzinfo else back.replace(tzinfo=timezone.utc)) == utc
+                    js = m.to_dict()["t"] if "t" in m.to_dict() else betterproto._Timestamp.timestamp_to_json(val)
+                    ev["json"] = av.cps(js)
+                    ev["json_back_us"] = av.rawint(av.dt_us(TsMsg().from_dict({"t": js}).t))
+                    ev["off"] = 9999
+                    return ev
+                finally:
+                    if old_tz is None:
+                        os.environ.pop("TZ", None)
+                    else:
+                        os.environ["TZ"] = old_tz
+                    time.tzset()
             elif off == 8888:
                 val = utc.astimezone(FOLDZONE)           # a zone with a repeated hour (the fold attribute decides the instant)
             else:
@@ -116,6 +150,8 @@ def inputs(ctx, quick):
                     out.append(("dur", us, None))
     for us in (TS_MIN, TS_MIN + 1, TS_MAX, TS_MAX - 1, 2**53, 2**53 + 1, -(2**53) - 1):
         out.append(("ts", us, None))
+    for us in (0, 1, -1, 1577880000123456, 951782400000000, -86400000001, 2**53 + 1):
+        out.append(("ts", us, 7777))
     # the same wall-clock time twice, an hour apart (fold 0 / fold 1), one after the other, around the transition of FoldZone
     for d in (-5400, -3600, -1800, -1, 0, 1, 1799, 3599):
         for f in (0, 250000):
@@ -153,6 +189,9 @@ def run(ctx):
     ctx.mc("MC_TimeConv", MC_CFG % ("FALSE" if quick else "TRUE"), name="MC_TimeConv", expect_actions=("PickSec", "PickFrac"))
     ins = inputs(ctx, quick)
     events = ctx.pmap(time_event, ins)
+    ctx.notes["naive_datetimes_the_library_encodes"] = sum(1 for x, e in zip(ins, events) if x[2] == 7777 and e is not None)
+    ins = [x for x, e in zip(ins, events) if e is not None]
+    events = [e for e in events if e is not None]
     for x in ins:
         ctx.count_case(x, x[1] != 0)
     ctx.sample({"input": ins[9], "bytes": events[9]["b"], "json": av.uncps(events[9]["json"]), "ref_json": av.uncps(events[9]["ref_json"])})
